@@ -1840,7 +1840,8 @@ process(PseudoTcpSocket *self, Segment *seg)
       return FALSE;
     }
 
-    received_fin = (priv->rcv_nxt != 0 && priv->rcv_nxt + seg->len == priv->rcv_fin);
+    received_fin = (priv->rcv_nxt != 0 && seg->seq == priv->rcv_nxt &&
+        priv->rcv_nxt + seg->len == priv->rcv_fin);
 
     /* Update the state machine, implementing all transitions on ‘rcv FIN’ or
      * ‘rcv ACK of FIN’ from RFC 793, Figure 6; and RFC 1122, §4.2.2.8. */
